@@ -1,16 +1,140 @@
-"""Contracts for mosromgr/moselements.py (C15, C16, C17; used by merges through RunningOrder.stories)."""
+"""Contracts for mosromgr/moselements.py and the RunningOrder aggregates (C15, C16, C17)."""
 import z3
 from pyvc import logic as L
-from pyvc.logic import Node, Str, null, none_s, text, forall_nodes, forall_ints
+from pyvc.logic import Node, Str, null, none_s, text, is_float, float_of, is_dt, dt_of, forall_nodes, forall_ints
 from pyvc.values import *
+from pyvc.state import State
 from pyvc.contracts import contract, Contract, Case, LoopSpec
-from .common import A, Imp, timing_ok
+from .common import A, Imp, timing_ok, ro_inv, ownership
+
+
+# ------------------------------------------------------------------ specification of a story's duration
+def dur_spec(W, H, s):
+    """(is_none, value): StoryDuration if present, else TextTime + MediaTime (a missing one counts 0), else None"""
+    lit = W.lit
+    md = H.find(s, lit('mosExternalMetadata'))
+    pl = H.find(md, lit('mosPayload'))
+    sd, tt, mt = H.find(pl, lit('StoryDuration')), H.find(pl, lit('TextTime')), H.find(pl, lit('MediaTime'))
+    nopl = z3.Or(md == null, pl == null)
+    isnone = z3.Or(nopl, A(sd == null, tt == null, mt == null))
+    val = z3.If(sd != null, float_of(text(sd)),
+                z3.If(tt != null, float_of(text(tt)), z3.RealVal(0)) + z3.If(mt != null, float_of(text(mt)), z3.RealVal(0)))
+    return isnone, val
+
+
+def as_optreal(v):
+    if isinstance(v, SNone):
+        return z3.BoolVal(True), z3.RealVal(0)
+    if isinstance(v, SInt):
+        return z3.BoolVal(False), z3.ToReal(v.t)
+    if isinstance(v, SReal):
+        return v.isnone, v.t
+    if isinstance(v, SIte):
+        an, av = as_optreal(v.a)
+        bn, bv = as_optreal(v.b)
+        return z3.If(v.cond, an, bn), z3.If(v.cond, av, bv)
+    raise Exception('not a number: %r' % (v,))
+
+
+@contract('mosromgr.moselements._get_story_duration')
+class GetStoryDuration(Contract):
+    props = ('C15', 'C16', 'C12')
+    opaque = False
+
+    def entry(self, E):
+        st = State(L.Heap(0, 0), z3.IntVal(0))
+        return st, {'story_tag': SNode(E.W.fresh('story', Node))}
+
+    def requires(self, cx):
+        s = cx.node('story_tag')
+        return [('story_element', s != null), ('durations_numeric_where_present', timing_ok(cx.W, cx.H, s))]
+
+    def ensures(self, cx, ex):
+        n, v = as_optreal(ex.value)
+        sn, sv = dur_spec(cx.W, cx.H, cx.node('story_tag'))
+        return [('C16+C15.duration_is_StoryDuration_else_TextTime_plus_MediaTime_else_None', A(n == sn, z3.Or(sn, v == sv)))]
+
+    def raises(self, cx, ex):
+        return [('C15+C12.duration_never_raises[%s]' % ex.value.name(), z3.BoolVal(False))]
+
+
+# ------------------------------------------------------------------ offsets
+class Prefix:
+    """spec functions of one story list: psum(j) = sum of the first j durations, pnone(j) = one of them is unknown.
+    Fresh functions defined by primitive recursion (definitional axioms)."""
+
+    def __init__(self, W, H, lst):
+        self.psum = W.fresh_fun('psum', L.I, L.R)
+        self.pnone = W.fresh_fun('pnone', L.I, L.B)
+        self.W, self.H, self.lst = W, H, lst
+
+    def dur(self, j):
+        return dur_spec(self.W, self.H, self.lst.elem(j).t)
+
+    def axioms(self):
+        j = z3.Int('j!ps')
+        dn, dv = self.dur(j)
+        return [self.psum(0) == 0, z3.Not(self.pnone(0)),
+                z3.ForAll([j], Imp(j >= 0, A(self.psum(j + 1) == self.psum(j) + dv, self.pnone(j + 1) == z3.Or(self.pnone(j), dn))),
+                          patterns=[self.psum(j + 1), self.pnone(j + 1)])]
+
+
+def offsets_facts(P, lst, d):
+    """dict d maps story j to psum(j) (None once a duration was unknown)"""
+    keys, vals, nonev = d.sym
+    j = z3.Int('j!of')
+    el = lambda jj: lst.elem(jj).t
+    return z3.ForAll([j], Imp(A(0 <= j, j < lst.length),
+                              A(z3.Select(keys, el(j)), z3.Select(nonev, el(j)) == P.pnone(j),
+                                Imp(z3.Not(P.pnone(j)), z3.Select(vals, el(j)) == P.psum(j)))),
+                     patterns=[el(j)])
+
+
+def distinct_elems(lst):
+    j, j2 = z3.Ints('j!de j2!de')
+    return z3.ForAll([j, j2], Imp(A(0 <= j, j < j2, j2 < lst.length), lst.elem(j).t != lst.elem(j2).t))
+
+
+class OffsetsLoop(LoopSpec):
+    havoc_types = {'t': 'optreal'}
+
+    def __init__(self, owner):
+        self.o = owner
+
+    def invariant(self, cx, lp):
+        P = self.o.prefix(cx)
+        lst = cx.a['all_stories']
+        k = lp.k
+        tn, tv = as_optreal(lp.st.locals['t'])
+        d = lp.st.locals['story_offsets']
+        keys, vals, nonev = d.sym
+        j = z3.Int('j!ol')
+        el = lambda jj: lst.elem(jj).t
+        return [('running_total', A(tn == P.pnone(k), Imp(z3.Not(P.pnone(k)), tv == P.psum(k)))),
+                ('offsets_so_far', z3.ForAll([j], Imp(A(0 <= j, j < k),
+                                                      A(z3.Select(keys, el(j)), z3.Select(nonev, el(j)) == P.pnone(j),
+                                                        Imp(z3.Not(P.pnone(j)), z3.Select(vals, el(j)) == P.psum(j)))),
+                                             patterns=[el(j)]))]
 
 
 @contract('mosromgr.moselements._get_story_offsets')
 class GetStoryOffsets(Contract):
-    props = ()
-    body_proved = False      # loop proof pending (C16)
+    props = ('C12', 'C15', 'C16')
+
+    def entry(self, E):
+        W = E.W
+        st = State(L.Heap(0, 0), z3.IntVal(0))
+        n = W.fresh('n_stories', L.I)
+        st.assume(n >= 0)
+        f = W.fresh_fun('story', L.I, Node)
+        lst = SList(n, lambda k: SNode(f(k)), desc='all_stories')
+        lst.elemkind = 'node'
+        return st, {'all_stories': lst}
+
+    def prefix(self, cx):
+        if 'prefix' not in cx.data:
+            cx.data['prefix'] = Prefix(cx.W, cx.H, cx.a['all_stories'])
+        return cx.data['prefix']
 
     def requires(self, cx):
         v = cx.a['all_stories']
@@ -19,19 +143,552 @@ class GetStoryOffsets(Contract):
         H, lit = cx.H, cx.W.lit
         k = z3.Int('k!gso')
         el = v.elem(k).t
-        return [('every_story_has_storyID_and_numeric_timing',
-                 z3.ForAll([k], Imp(A(0 <= k, k < v.length),
-                                    A(el != null, H.find(el, lit('storyID')) != null, timing_ok(cx.W, H, el)))))]
+        out = [('stories_are_elements_with_numeric_durations',
+                z3.ForAll([k], Imp(A(0 <= k, k < v.length), A(el != null, timing_ok(cx.W, H, el))), patterns=[el])),
+               ('stories_are_distinct_elements', distinct_elems(v))]
+        return out
+
+    def vocabulary(self, cx):
+        return self.prefix(cx).axioms()
 
     def cases(self, cx):
         v = cx.a['all_stories']
         if isinstance(v, SNone):
             return [Case('none', ret=NONE)]
         W = cx.W
-        d = SDict(sym=(W.fresh('off_keys', z3.ArraySort(Str, L.B)), W.fresh('off_vals', z3.ArraySort(Str, L.R)),
-                       W.fresh('off_none', z3.ArraySort(Str, L.B))))
+        P = self.prefix(cx)
+        d = SDict(sym=(W.fresh('off_keys', z3.ArraySort(Node, L.B)), W.fresh('off_vals', z3.ArraySort(Node, L.R)),
+                       W.fresh('off_none', z3.ArraySort(Node, L.B))))
+        d.prefix = P
         return [Case('empty', ret=NONE, assume=[v.length == 0]),
-                Case('offsets', ret=d, assume=[v.length > 0] + self.dict_facts(cx, v, d))]
+                Case('offsets', ret=d, assume=[v.length > 0] + P.axioms() + [offsets_facts(P, v, d)])]
 
-    def dict_facts(self, cx, v, d):
-        return []
+    def loop(self, ordinal):
+        if ordinal == 0:
+            return OffsetsLoop(self)
+
+    def ensures(self, cx, ex):
+        v = cx.a['all_stories']
+        r = ex.value
+        if isinstance(r, SNone):
+            return [('C16.no_offsets_only_for_an_empty_list', v.length == 0)]
+        P = self.prefix(cx)
+        return [('C16.offset_of_each_story_is_the_sum_of_the_durations_before_it', A(v.length > 0, offsets_facts(P, v, r)))]
+
+    def raises(self, cx, ex):
+        return [('C15+C12.offsets_never_raise[%s]' % ex.value.name(), z3.BoolVal(False))]
+
+
+# ------------------------------------------------------------------ assumed library folds
+@contract('builtin.sum')
+class Sum(Contract):
+    """A-NUM: sum(xs) folds + from 0 left to right; an element that is None raises TypeError"""
+    assumed = True
+    props = ()
+
+    def apply(self, E, st, bound):
+        xs = bound['xs']
+        E.assumed_used.add('A-NUM')
+        E.used_contracts.add('builtin.sum')
+        W = E.W
+        k = z3.Int('k!sum')
+        el = xs.elem(k)
+        n_, v_ = as_optreal(el)
+        S = W.fresh_fun('fold_sum', L.I, L.R)
+        some_none = W.fresh('sum_none_at', L.I)
+        ok = st.fork()
+        ok.assume(z3.ForAll([k], Imp(A(0 <= k, k < xs.length), z3.Not(n_))))
+        ok.assume(S(0) == 0, z3.ForAll([k], Imp(k >= 0, S(k + 1) == S(k) + v_), patterns=[S(k + 1)]))
+        r = SReal(S(xs.length))
+        r.fold = (S, xs)
+        out = []
+        if E.feasible(ok):
+            ok.trace.append('sum:ok')
+            out.append((ok, r))
+        bad = st.fork()
+        bad.assume(0 <= some_none, some_none < xs.length, z3.substitute(n_, (k, some_none)))
+        if E.feasible(bad):
+            bad.trace.append('sum:None')
+            out.append(E.raise_(bad, 'TypeError', origin='sum() of None'))
+        return out
+
+
+flat_of = L.mkfun('flatten', L.Obj, L.Obj)
+
+
+@contract('builtin.chain')
+class Chain(Contract):
+    """itertools.chain.from_iterable(xss): the concatenation of the lists in order (opaque value; the caller
+    proves which lists, in which order, it passes)"""
+    assumed = True
+    props = ()
+
+    def apply(self, E, st, bound):
+        xss = bound['xss']
+        E.used_contracts.add('builtin.chain')
+        r = SList(E.W.fresh('chain_len', L.I), lambda k: SOpaque(None, 'chained'), desc='chain')
+        r.chained = xss
+        st.assume(r.length >= 0)
+        return [(st, r)]
+
+
+# ------------------------------------------------------------------ Story / Item objects
+UNSET = 'mosromgr.moselements._UNSET'
+
+
+def story_obj(E, st, xml, offsets, prog, unknown_items=None, cls='Story'):
+    W = E.W
+    c = E.repo.cls(cls)
+    o = SObj(c, st.new_obj(None))
+    st.objs[o.oid] = {'_xml': SNode(xml), '_id': SStr(W.sentinel(UNSET)), '_slug': NONE,
+                      '_id_tag': SStr(W.lit('storyID'), py='storyID'), '_slug_tag': SStr(W.lit('storySlug'), py='storySlug'),
+                      '_duration': NONE, '_unknown_items': unknown_items if unknown_items is not None else SBool(False),
+                      '_prog_start_time': prog, '_story_offsets': offsets}
+    if cls == 'Item':
+        st.objs[o.oid].update({'_id_tag': SStr(W.lit('itemID'), py='itemID'), '_slug_tag': SStr(W.lit('itemSlug'), py='itemSlug')})
+    return o
+
+
+def opt_dt(W, name):
+    d = SOpaque(W.fresh(name, L.R), 'datetime')
+    d.isnone = W.fresh(name + '_none', L.B)
+    return d
+
+
+def dt_parts(v):
+    if isinstance(v, SNone):
+        return z3.BoolVal(True), z3.RealVal(0)
+    return getattr(v, 'isnone', z3.BoolVal(False)), v.t
+
+
+def payload(W, H, s):
+    md = H.find(s, W.lit('mosExternalMetadata'))
+    pl = H.find(md, W.lit('mosPayload'))
+    return md, pl
+
+
+def explicit_time(W, H, s, tag):
+    md, pl = payload(W, H, s)
+    f = H.find(pl, W.lit(tag))
+    return A(md != null, pl != null, f != null), dt_of(text(f))
+
+
+def offset_spec(st, o):
+    d = st.fields(o)['_story_offsets']
+    if isinstance(d, SNone):
+        return z3.BoolVal(True), z3.RealVal(0)
+    keys, vals, nonev = d.sym
+    x = st.fields(o)['_xml'].t
+    return z3.Or(z3.Not(z3.Select(keys, x)), z3.Select(nonev, x)), z3.Select(vals, x)
+
+
+def start_spec(W, H, st, o):
+    s = st.fields(o)['_xml'].t
+    ex, exv = explicit_time(W, H, s, 'StoryStarted')
+    pn, pv = dt_parts(st.fields(o)['_prog_start_time'])
+    on, ov = offset_spec(st, o)
+    return z3.If(ex, z3.BoolVal(False), z3.Or(pn, on)), z3.If(ex, exv, pv + ov)
+
+
+def end_spec(W, H, st, o):
+    s = st.fields(o)['_xml'].t
+    ex, exv = explicit_time(W, H, s, 'StoryEnded')
+    sn, sv = start_spec(W, H, st, o)
+    dn, dv = dur_spec(W, H, s)
+    return z3.If(ex, z3.BoolVal(False), z3.Or(sn, dn)), z3.If(ex, exv, sv + dv)
+
+
+class StoryProp(Contract):
+    """accessor of a Story built the way RunningOrder.stories builds it (offsets dict or none; programme start or none)"""
+    opaque = False
+    props = ('C15', 'C16', 'C12')
+
+    def entry(self, E):
+        W = E.W
+        out = []
+        for with_offsets in (True, False):
+            st = State(L.Heap(0, 0), z3.IntVal(0))
+            s = W.fresh('story', Node)
+            if with_offsets:
+                d = SDict(sym=(W.fresh('off_keys', z3.ArraySort(Node, L.B)), W.fresh('off_vals', z3.ArraySort(Node, L.R)),
+                               W.fresh('off_none', z3.ArraySort(Node, L.B))))
+            else:
+                d = NONE
+            o = story_obj(E, st, s, d, opt_dt(W, 'prog_start'), unknown_items=SBool(W.fresh('unknown_items', L.B)))
+            out.append((st, {'self': o}))
+        return out
+
+    def requires(self, cx):
+        s = cx.st.fields(cx.a['self'])['_xml'].t
+        return [('story_element', s != null), ('times_and_durations_well_formed_where_present', timing_ok(cx.W, cx.H, s))]
+
+    def raises(self, cx, ex):
+        return [('C15+C12.never_raises[%s]' % ex.value.name(), z3.BoolVal(False))]
+
+
+def regprop(qual, ensures_fn, base=StoryProp, props=None):
+    cls = type('P_' + qual.replace('.', '_'), (base,), {'ensures': lambda self, cx, ex: ensures_fn(self, cx, ex)})
+    inst = cls()
+    inst.qualname = qual
+    if props:
+        inst.props = props
+    from pyvc.contracts import REGISTRY
+    REGISTRY[qual] = inst
+    return inst
+
+
+def _dur_ens(self, cx, ex):
+    n, v = as_optreal(ex.value)
+    sn, sv = dur_spec(cx.W, cx.H, cx.st.fields(cx.a['self'])['_xml'].t)
+    return [('C16.duration', A(n == sn, z3.Or(sn, v == sv)))]
+
+
+def _off_ens(self, cx, ex):
+    n, v = as_optreal(ex.value)
+    sn, sv = offset_spec(cx.st, cx.a['self'])
+    return [('C16+C15.offset_is_the_recorded_prefix_sum_or_None', A(n == sn, z3.Or(sn, v == sv)))]
+
+
+def _start_ens(self, cx, ex):
+    n, v = dt_parts(ex.value)
+    sn, sv = start_spec(cx.W, cx.H, cx.st, cx.a['self'])
+    return [('C16.start_is_StoryStarted_else_programme_start_plus_offset_else_None', A(n == sn, z3.Or(sn, v == sv)))]
+
+
+def _end_ens(self, cx, ex):
+    n, v = dt_parts(ex.value)
+    sn, sv = end_spec(cx.W, cx.H, cx.st, cx.a['self'])
+    return [('C16.end_is_StoryEnded_else_start_plus_duration_else_None', A(n == sn, z3.Or(sn, v == sv)))]
+
+
+regprop('mosromgr.moselements.Story.duration', _dur_ens)
+regprop('mosromgr.moselements.Story.offset', _off_ens)
+regprop('mosromgr.moselements.Story.start_time', _start_ens)
+regprop('mosromgr.moselements.Story.end_time', _end_ens)
+
+
+def _items_ens(self, cx, ex):
+    o = cx.a['self']
+    s = cx.st.fields(o)['_xml'].t
+    ui = cx.st.fields(o)['_unknown_items'].t
+    v = ex.value
+    if isinstance(v, SNone):
+        return [('C15.items_None_only_when_unknown', ui)]
+    H, W = cx.H, cx.W
+    j = z3.Int('j!it')
+    return [('C15.items_are_the_item_children_in_document_order',
+             A(z3.Not(ui), v.length == H.falen(s, W.lit('item')),
+               z3.ForAll([j], Imp(A(0 <= j, j < v.length), ex.st.fields(v.elem(j))['_xml'].t == H.fanode(s, W.lit('item'), j)))))]
+
+
+regprop('mosromgr.moselements.Story.items', _items_ens, props=('C15', 'C12'))
+
+
+def _slug_ens(self, cx, ex):
+    o = cx.a['self']
+    s = cx.st.fields(o)['_xml'].t
+    tag = cx.st.fields(o)['_slug_tag'].t
+    f = cx.H.find(s, tag)
+    v = ex.value
+    vt = none_s if isinstance(v, SNone) else v.t
+    return [('C15.slug_is_the_slug_tag_text_or_None', vt == z3.If(f == null, none_s, text(f)))]
+
+
+regprop('mosromgr.moselements.MosElement.slug', _slug_ens, props=('C15', 'C12'))
+
+
+class ItemProp(StoryProp):
+    props = ('C15', 'C12')
+
+    def entry(self, E):
+        st = State(L.Heap(0, 0), z3.IntVal(0))
+        o = story_obj(E, st, E.W.fresh('item', Node), NONE, NONE, cls='Item')
+        return st, {'self': o}
+
+    def requires(self, cx):
+        return [('item_element', cx.st.fields(cx.a['self'])['_xml'].t != null)]
+
+
+def _child_text(tag):
+    def ens(self, cx, ex):
+        s = cx.st.fields(cx.a['self'])['_xml'].t
+        f = cx.H.find(s, cx.W.lit(tag))
+        v = ex.value
+        vt = none_s if isinstance(v, SNone) else v.t
+        return [('C15.%s_text_or_None' % tag, vt == z3.If(f == null, none_s, text(f)))]
+    return ens
+
+
+regprop('mosromgr.moselements.Item.type', _child_text('objType'), base=ItemProp)
+regprop('mosromgr.moselements.Item.object_id', _child_text('objID'), base=ItemProp)
+regprop('mosromgr.moselements.Item.mos_id', _child_text('mosID'), base=ItemProp)
+
+
+def _note_ens(self, cx, ex):
+    s = cx.st.fields(cx.a['self'])['_xml'].t
+    H, W = cx.H, cx.W
+    md, pl = payload(W, H, s)
+    note = L.note_path(pl)
+    t = H.find(note, W.lit('text'))
+    present = A(md != null, pl != null, note != null, t != null)
+    v = ex.value
+    vt = none_s if isinstance(v, SNone) else v.t
+    return [('C15.note_text_or_None', vt == z3.If(present, text(t), none_s))]
+
+
+regprop('mosromgr.moselements.Item.note', _note_ens, base=ItemProp)
+
+
+# ------------------------------------------------------------------ script / body (C17)
+def note_spec(W, t):
+    """text t (stripped) is a technical note: wrapped in round or angle brackets"""
+    st_ = L.s_strip(t)
+    return z3.Or(A(L.s_startswith(st_, W.lit('(')), L.s_endswith(st_, W.lit(')'))),
+                 A(L.s_startswith(st_, W.lit('<')), L.s_endswith(st_, W.lit('>'))))
+
+
+def script_incl(W, H, p):
+    t = text(p)
+    return A(L.s_truthy(t), L.s_truthy(L.s_strip(t)), z3.Not(note_spec(W, t)))
+
+
+def ite_term(v):
+    if isinstance(v, SIte):
+        return z3.If(v.cond, ite_term(v.a), ite_term(v.b))
+    if isinstance(v, SNone):
+        return none_s
+    return v.t
+
+
+def _script_ens(self, cx, ex):
+    o = cx.a['self']
+    s = cx.st.fields(o)['_xml'].t
+    H, W = cx.H, cx.W
+    v = ex.value
+    if not isinstance(v, SList) or not hasattr(v, 'incl'):
+        return [('C17.script_is_a_filtered_list_of_paragraphs', z3.BoolVal(False))]
+    k = z3.Int('k!sc')
+    para = lambda kk: H.fanode(s, W.lit('p'), kk)
+    base_ok = v.base.length == H.falen(s, W.lit('p'))
+    el = v.elem_at_base(k) if hasattr(v, 'elem_at_base') else None
+    return [('C17.script_is_exactly_the_non_empty_non_note_paragraphs_stripped_in_order',
+             A(base_ok,
+               z3.ForAll([k], Imp(A(0 <= k, k < v.base.length),
+                                  A(v.incl(k) == script_incl(W, H, para(k)),
+                                    Imp(v.incl(k), ite_term(el) == L.s_strip(text(para(k)))))))))]
+
+
+regprop('mosromgr.moselements.Story.script', _script_ens, props=('C17', 'C15', 'C12'))
+
+
+def _body_ens(self, cx, ex):
+    o = cx.a['self']
+    s = cx.st.fields(o)['_xml'].t
+    H, W = cx.H, cx.W
+    v = ex.value
+    if not isinstance(v, SList) or not hasattr(v, 'incl'):
+        return [('C17.body_is_a_filtered_list_of_children', z3.BoolVal(False))]
+    k = z3.Int('k!bd')
+    child = lambda kk: H.at(s, kk)
+    is_item = lambda kk: H.tag(child(kk)) == W.lit('item')
+    is_p = lambda kk: H.tag(child(kk)) == W.lit('p')
+    el = v.elem_at_base(k)
+
+    def elem_ok(e):
+        # e is a decision tree (SIte) over Item objects and strings; every leaf must denote the expected element
+        if isinstance(e, SIte):
+            return A(Imp(e.cond, elem_ok(e.a)), Imp(z3.Not(e.cond), elem_ok(e.b)))
+        if isinstance(e, SObj) and e.cls.name == 'Item':
+            return A(is_item(k), ex.st.fields(e)['_xml'].t == child(k))
+        if isinstance(e, SStr):
+            return A(z3.Not(is_item(k)), e.t == z3.If(text(child(k)) != none_s, text(child(k)), W.lit('')))
+        return z3.BoolVal(False)
+
+    return [('C17.body_lists_every_paragraph_text_and_every_item_in_document_order',
+             A(v.base.length == H.len(s),
+               z3.ForAll([k], Imp(A(0 <= k, k < H.len(s)),
+                                  A(v.incl(k) == z3.Or(is_item(k), is_p(k)), Imp(v.incl(k), elem_ok(el)))))))]
+
+
+regprop('mosromgr.moselements.Story.body', _body_ens, props=('C17', 'C15', 'C12'))
+
+
+class NoteProp(Contract):
+    opaque = False
+    props = ('C17',)
+
+    def entry(self, E):
+        st = State(L.Heap(0, 0), z3.IntVal(0))
+        return st, {'p': SNode(E.W.fresh('p', Node))}
+
+    def requires(self, cx):
+        return [('paragraph_with_text', A(cx.node('p') != null, text(cx.node('p')) != none_s))]
+
+    def ensures(self, cx, ex):
+        v = ex.value
+        return [('C17.technical_note_iff_wrapped_in_round_or_angle_brackets',
+                 (v.t if isinstance(v, SBool) else z3.BoolVal(False)) == note_spec(cx.W, text(cx.node('p'))))]
+
+    def raises(self, cx, ex):
+        return [('C17.never_raises', z3.BoolVal(False))]
+
+
+from pyvc.contracts import REGISTRY as _REG
+_n = NoteProp()
+_n.qualname = 'mosromgr.moselements._is_technical_note'
+_REG[_n.qualname] = _n
+
+
+# ------------------------------------------------------------------ RunningOrder aggregates (C15, C16, C17)
+def spec_list(kind, H, xml):
+    """the list Story.script / Story.body returns for story element xml at heap H (opaque value for callers)"""
+    return L.mkfun('%s_of_%d_%d' % (kind, H.kv, H.tv), Node, L.Obj)(xml)
+
+
+def _opaque_cases(kind):
+    def cases(self, cx):
+        o = cx.a['self']
+        xml = cx.st.fields(o)['_xml'].t
+        return [Case(kind, ret=SOpaque(spec_list(kind, cx.H, xml), kind + '_list'))]
+    return cases
+
+
+for _k in ('script', 'body'):
+    _c = _REG['mosromgr.moselements.Story.' + _k]
+    type(_c).opaque = True
+    type(_c).cases = _opaque_cases(_k)
+
+
+class ROProp(Contract):
+    opaque = False
+    props = ('C15', 'C16', 'C12')
+
+    def entry(self, E):
+        W = E.W
+        st = State(L.Heap(0, 0), z3.IntVal(0))
+        ro = SObj(E.repo.cls('RunningOrder'), st.new_obj(None))
+        st.objs[ro.oid] = {'_xml': SNode(W.fresh('root', Node)), '_base_tag': NONE}
+        return st, {'self': ro}
+
+    def root(self, cx):
+        return cx.objs[cx.a['self'].oid]['_xml'].t
+
+    def base(self, cx):
+        return cx.H.find(self.root(cx), cx.W.lit('roCreate'))
+
+    def requires(self, cx):
+        return ro_inv(cx.W, cx.H, self.root(cx))
+
+    def raises(self, cx, ex):
+        return [('C15+C12.never_raises[%s]' % ex.value.name(), z3.BoolVal(False))]
+
+    def n(self, cx):
+        return cx.H.falen(self.base(cx), cx.W.lit('story'))
+
+    def story(self, cx, j):
+        return cx.H.fanode(self.base(cx), cx.W.lit('story'), j)
+
+    def start(self, cx):
+        es = cx.H.find(self.base(cx), cx.W.lit('roEdStart'))
+        return z3.Or(es == null, text(es) == none_s), dt_of(text(es))
+
+
+def _ro_start_ens(self, cx, ex):
+    n, v = dt_parts(ex.value)
+    sn, sv = self.start(cx)
+    return [('C16+C15.running_order_start_is_roEdStart_or_None', A(n == sn, z3.Or(sn, v == sv)))]
+
+
+regprop('mosromgr.mostypes.RunningOrder.start_time', _ro_start_ens, base=ROProp)
+
+
+def _story_objs_ok(self, cx, st, v):
+    """v: list of Story objects built over exactly the story children, sharing offsets over that same list"""
+    H, W = cx.H, cx.W
+    j = z3.Int('j!ro')
+    n = self.n(cx)
+    o = v.elem(j)
+    f = st.fields(o)
+    d = f['_story_offsets']
+    pn, pv = dt_parts(f['_prog_start_time'])
+    sn, sv = self.start(cx)
+    conj = [v.length == n,
+            z3.ForAll([j], Imp(A(0 <= j, j < n), f['_xml'].t == self.story(cx, j))),
+            pn == sn, z3.Or(sn, pv == sv)]
+    if isinstance(d, SDict):
+        lst = d.prefix.lst
+        conj.append(A(lst.length == n, z3.ForAll([j], Imp(A(0 <= j, j < n), lst.elem(j).t == self.story(cx, j)))))
+    else:
+        conj.append(n == 0)
+    return A(*conj)
+
+
+def _ro_stories_ens(self, cx, ex):
+    v = ex.value
+    if not isinstance(v, SList):
+        return [('C15.stories_is_a_list', z3.BoolVal(False))]
+    return [('C15+C16.stories_are_the_story_children_in_document_order_with_offsets_over_that_list',
+             _story_objs_ok(self, cx, ex.st, v))]
+
+
+regprop('mosromgr.mostypes.RunningOrder.stories', _ro_stories_ens, base=ROProp)
+
+
+def _ro_duration_ens(self, cx, ex):
+    v = ex.value
+    H, W = cx.H, cx.W
+    j = z3.Int('j!du')
+    n = self.n(cx)
+    dn, dv = dur_spec(W, H, self.story(cx, j))
+    some_none = z3.Exists([j], A(0 <= j, j < n, dn))
+    if isinstance(v, SNone):
+        return [('C16.duration_None_only_when_a_story_has_no_duration', some_none)]
+    if not isinstance(v, SReal) or not hasattr(v, 'fold'):
+        return [('C16.duration_is_the_sum_of_the_story_durations', z3.BoolVal(False))]
+    S, xs = v.fold
+    en, ev = as_optreal(xs.elem(j))
+    return [('C16.duration_is_the_sum_of_the_story_durations_in_order',
+             A(xs.length == n, z3.Not(some_none), z3.ForAll([j], Imp(A(0 <= j, j < n), A(z3.Not(en), ev == dv)))))]
+
+
+regprop('mosromgr.mostypes.RunningOrder.duration', _ro_duration_ens, base=ROProp)
+
+
+def _ro_end_ens(self, cx, ex):
+    n = self.n(cx)
+    vn, vv = dt_parts(ex.value)
+    st = ex.st
+    W, H = cx.W, cx.H
+    # any Story object built on this path carries the shared offsets / programme start
+    objs = [oid for oid, f in st.objs.items() if '_story_offsets' in f and '_prog_start_time' in f]
+    if not objs:
+        return [('C16.end_None_only_without_stories', A(vn, n == 0))]
+    f0 = st.objs[objs[-1]]
+    probe = SObj(cx.E.repo.cls('Story'), st.new_obj(None))
+    st.objs[probe.oid] = dict(f0)
+    st.objs[probe.oid]['_xml'] = SNode(self.story(cx, n - 1))
+    sn, sv = end_spec(W, H, st, probe)
+    return [('C16.running_order_ends_when_its_last_story_ends', A(n > 0, vn == sn, z3.Or(sn, vv == sv)))]
+
+
+regprop('mosromgr.mostypes.RunningOrder.end_time', _ro_end_ens, base=ROProp)
+
+
+def _ro_concat_ens(kind):
+    def ens(self, cx, ex):
+        v = ex.value
+        xss = getattr(v, 'chained', None)
+        if xss is None:
+            return [('C17.%s_is_a_concatenation' % kind, z3.BoolVal(False))]
+        j = z3.Int('j!cc')
+        n = self.n(cx)
+        e = xss.elem(j)
+        ok = isinstance(e, SOpaque) and e.kind == kind + '_list'
+        return [('C17.running_order_%s_is_the_concatenation_of_its_stories_%s_in_running_order' % (kind, kind),
+                 A(z3.BoolVal(ok), xss.length == n,
+                   z3.ForAll([j], Imp(A(0 <= j, j < n), e.t == spec_list(kind, cx.H, self.story(cx, j)))) if ok else z3.BoolVal(False)))]
+    return ens
+
+
+regprop('mosromgr.mostypes.RunningOrder.script', _ro_concat_ens('script'), base=ROProp, props=('C17', 'C15', 'C12'))
+regprop('mosromgr.mostypes.RunningOrder.body', _ro_concat_ens('body'), base=ROProp, props=('C17', 'C15', 'C12'))
